@@ -335,7 +335,12 @@ CheckOp(ev) ==
                       \cup (IF ev.used4 # Len(ev.ret4) THEN {V("C02.count", <<"loaded world after reset", ev.used4>>)} ELSE {})
                  ELSE IF ev.op = "DumpLoad" /\ x.def /\ ev.panic THEN {V("C17.load-panicked", ev.msg)}
                  ELSE {}
-    IN [def |-> x.def, next |-> exp,
+    IN \* a creation that does not panic returns exactly one handle the world had not issued before (traced programs: the
+       \* handles that became alive; a creation that hands out the reserved zero entity shows none)
+       IF ev.op \in {"New", "Copy"} /\ ~ev.panic /\ Len(ev.ret) # 1
+       THEN [def |-> TRUE, next |-> w, vs |-> {V("C02.no-new-handle", <<ev.op, ev.ret>>)}]
+       ELSE
+       [def |-> x.def, next |-> exp,
         vs |-> IF x.def THEN vPanic \cup vDup \cup vAlive \cup vCount \cup vEnt \cup vLock \cup vCb \cup vC08 \cup vC09 \cup vQ \cup vShr \cup vDump ELSE {}]
 
 (***************************************************************************)
